@@ -652,11 +652,32 @@ def _interp_stmt(repo, cls, fn, st, ctx, res, gens):
         return
     if isinstance(st, ast.For):
         it0 = asub(st.iter, ctx)
+        if isinstance(it0, ast.Name) and it0.id in ctx.get("tables", {}):
+            # a local table of (name, callback) pairs, possibly extended under guards: one unrolled iteration per entry, under the entry's guards
+            for e, extra in ctx["tables"][it0.id]:
+                ctx_u = dict(ctx)
+                ctx_u["alias"] = dict(ctx["alias"])
+                ctx_u["env"] = dict(ctx["env"])
+                ctx_u["guards"] = tuple(ctx["guards"]) + tuple(extra)
+                tg = st.target
+                if isinstance(tg, ast.Name):
+                    ctx_u["alias"][tg.id] = e
+                elif isinstance(tg, ast.Tuple) and isinstance(e, (ast.Tuple, ast.List)) and len(tg.elts) == len(e.elts) and all(isinstance(x, ast.Name) for x in tg.elts):
+                    for x, y in zip(tg.elts, e.elts):
+                        ctx_u["alias"][x.id] = y
+                else:
+                    raise AnalysisError("%s: loop `%s` over a local table outside the analysed fragment (%s)" % (cls.name, norm_stmt(st)[:60], where))
+                _interp_block(repo, cls, fn, st.body, ctx_u, res, gens)
+            return
         if isinstance(it0, ast.Name):
-            # a local bound once to a literal tuple / list (a table of (name, callback) pairs): loop over the literal
+            # a local bound once to a literal tuple / list (a table of (name, callback) pairs), or to list(enumerate(X)) / enumerate(X) / list(X)
             from . import flow as _flow
             d0 = _flow._single_def(fn, it0.id)
             if isinstance(d0, (ast.Tuple, ast.List)):
+                it0 = asub(d0, ctx)
+            elif isinstance(d0, ast.Call) and call_name(d0) in ("list", "tuple") and isinstance(d0.func, ast.Name) and len(d0.args) == 1:
+                it0 = asub(d0.args[0], ctx)
+            elif isinstance(d0, ast.Call) and call_name(d0) == "enumerate":
                 it0 = asub(d0, ctx)
         if isinstance(it0, ast.Call) and call_name(it0) == "product" and isinstance(st.target, ast.Tuple):
             # for a, b in product(X, Y) / product(X, repeat=2): the nested loops it abbreviates
@@ -748,6 +769,20 @@ def _interp_stmt(repo, cls, fn, st, ctx, res, gens):
             ast.copy_location(one, st)
             one._parent = getattr(st, "_parent", None)
             _interp_stmt(repo, cls, fn, one, ctx, res, gens)
+        return
+    if isinstance(st, ast.Assign) and len(st.targets) == 1 and isinstance(st.targets[0], ast.Name) and isinstance(st.value, (ast.List, ast.Tuple)) \
+            and st.value.elts and all(isinstance(e0, ast.Tuple) for e0 in st.value.elts) \
+            and any(isinstance(c0, ast.Call) and call_name(c0) in ("append", "extend") and dotted(c0.func.value) == st.targets[0].id for c0 in ast.walk(fn)):
+        # a local table of (name, callback) pairs that is extended later (under guards): kept as a table, unrolled where it is iterated
+        ctx.setdefault("tables", {})
+        ctx["tables"][st.targets[0].id] = [(asub(e0, ctx), ()) for e0 in st.value.elts]
+        ctx.setdefault("table_base", {})[st.targets[0].id] = len(ctx["guards"])
+        return
+    if isinstance(st, ast.Expr) and isinstance(st.value, ast.Call) and call_name(st.value) == "append" and isinstance(st.value.func.value, ast.Name) \
+            and st.value.func.value.id in ctx.get("tables", {}) and len(st.value.args) == 1 and isinstance(st.value.args[0], ast.Tuple):
+        nm0 = st.value.func.value.id
+        extra = tuple(ctx["guards"])[ctx["table_base"][nm0]:]
+        ctx["tables"][nm0].append((asub(st.value.args[0], ctx), extra))
         return
     if isinstance(st, ast.Assign) and len(st.targets) == 1:
         tgt = st.targets[0]
